@@ -61,7 +61,7 @@ def run(chk, prog):
     chk.require(oks, "SHAPE-SEL", "_shape_selection/Switch", "union over every branch map", derived=show(s)[:240], expected="loop(chms[0]) | ... | loop(chms[n-1])", where=w)
     # Static -> per address, re-extended by that address
     st = arms.get("Static")
-    keys = ("call", ("attr", ("attr", INNER, "mapping"), "keys"), (), ())
+    keys = ("attr", INNER, "mapping")
     a = mk_elem(keys)
     want = ("call", ("attr", L(("call", INNER, (a,), ()), ("call", SEL, (a,), ())), "extend"), (a,), ())
     okst = is_t(st, "bin") and st[1] == "|" and is_call(st[2], "none") and st[3] == ("sumover", keys, want)
